@@ -349,6 +349,7 @@ func (c *vC12) checkCommitmentProofs(b *vBlock, otherRoot []byte, tamper func(*v
 			}
 			if verr != nil {
 				c.st.out("cproof:rejected")
+				c.sample("commitment-proof/rejected", map[string]any{"block": b.Spec.String(), "proof_of": r.Spec.String(), "operator": cs.Op, "at": cs.Detail, "verify": verr.Error()})
 				continue
 			}
 			if ok, why := vCommitmentClaimTrue(b, cs.P, cs.Root, cs.Commitment); !ok {
@@ -359,6 +360,7 @@ func (c *vC12) checkCommitmentProofs(b *vBlock, otherRoot []byte, tamper func(*v
 			}
 			c.st.out("cproof:accepted-true-claim")
 			c.st.hist("cproof_accepted_true_claim_ops", cs.Op)
+			c.sample("commitment-proof/accepted-true-claim", map[string]any{"block": b.Spec.String(), "proof_of": r.Spec.String(), "operator": cs.Op, "verify": "nil; ground truth: every listed subtree root is the inner node of the real row at the claimed leaves"})
 		}
 	}
 }
